@@ -223,8 +223,10 @@ def run_schedule(programs, schedule, compression=None, default="stay", lines=Fal
     keytab = {}
 
     def mk():
+        # one byte pair of the key differs from thread to thread, the other pair is the same in all of them (keys that share
+        # byte values are the normal case with random keys)
         tid = sched.me()
-        return bytes([0x10 + (tid or 0)]) * 4
+        return bytes([0x10 + (tid or 0), 0xA5, 0x10 + (tid or 0), 0x5A])
     F.make_masking_key = mk
     results = [[] for _ in programs]
     patched_threading = []
